@@ -55,6 +55,8 @@ var c07Letters = func() []c07Letter {
 	plain("SetCReg(0,true,red)", func(d ivg.Destination, set int) { d.SetCReg(0, true, rgba(0xff, 0, 0, 0xff)) })
 	plain("SetCReg(0,false,green80)", func(d ivg.Destination, set int) { d.SetCReg(0, false, rgba(0, 0x80, 0, 0x80)) })
 	plain("SetCReg(1,false,blend)", func(d ivg.Destination, set int) { d.SetCReg(1, false, ivg.BlendColor(0x40, 0xc0, 0x80)) })
+	plain("SetCReg(0,true,blend)", func(d ivg.Destination, set int) { d.SetCReg(0, true, ivg.BlendColor(0x80, 0xc9, 0x85)) })
+	plain("SetCReg(0,true,pal3)", func(d ivg.Destination, set int) { d.SetCReg(0, true, ivg.PaletteIndexColor(3)) })
 	plain("SetNReg(0,true,.)", func(d ivg.Destination, set int) { d.SetNReg(0, true, c07v(set, 0.25, 0.3)) })
 	plain("SetNReg(0,false,.)", func(d ivg.Destination, set int) { d.SetNReg(0, false, c07v(set, 0.75, 0.7)) })
 	plain("SetNReg(1,false,.)", func(d ivg.Destination, set int) { d.SetNReg(1, false, c07v(set, 2, 2.1)) })
@@ -107,6 +109,12 @@ var c07Letters = func() []c07Letter {
 			g.RelArcTo(6, 4, 0.125, true, false, 10, c07v(set, 2, 2.2))
 			g.AbsArcTo(5, 5, 0, false, true, 8, -6)
 			g.RelArcTo(3, 7, 0.75, false, true, -4, -3)
+			g.ClosePathAbsMoveTo(9, 9)
+			g.RelLineTo(2, 0)
+			g.AbsLineTo(10, 12)
+			g.ClosePathRelMoveTo(-3, 1)
+			g.RelHLineTo(-2)
+			g.RelVLineTo(c07v(set, 2, 2.3))
 			g.ClosePathEndPath()
 			return nil
 		}},
@@ -147,19 +155,33 @@ func c07Names(ls []int) string {
 	return s
 }
 
-func c07Depth(tier string) int {
-	if tier == "thorough" {
-		return 6
+func c07Depth(tier string) int { return 5 }
+
+// c07Core: one or two representatives per kind of letter; the thorough tier explores
+// histories of 6 letters over it (and all histories of <=5 over the full alphabet, as the quick tier).
+var c07Core = func() []int {
+	keep := map[string]bool{"SetCSel(10)": true, "SetCSel(63)": true, "SetCSel(74)": true, "SetNSel(10)": true, "SetNSel(63)": true, "SetNSel(201)": true,
+		"SetCReg(0,true,red)": true, "SetCReg(1,false,blend)": true, "SetCReg(0,true,blend)": true, "SetNReg(0,true,.)": true, "SetNReg(1,false,.)": true,
+		"11xSetCReg(0,true)": true, "Reset": true, "CSel()": true, "NSel()": true, "SetGradient(2 stops)": true, "SetLinearGradient": true, "SetCircularGradient": true,
+		"SetPathData(adj1)": true, "probe": true, "arcs": true}
+	var c []int
+	for i, l := range c07Letters {
+		if keep[l.name] {
+			c = append(c, i)
+		}
 	}
-	return 5
-}
+	if len(c) != len(keep) {
+		panic("c07Core: a core letter is missing from the alphabet")
+	}
+	return c
+}()
 
 func init() {
 	nl := len(c07Letters)
 	mc.Register(&mc.Check{
 		ID:    "C07",
 		Level: "model_checking",
-		Rule: fmt.Sprintf("engine S: every history of <=5 (thorough <=6) letters over a %d-letter alphabet (SetCSel/SetNSel at {0,9,10,62,63} and at arguments >= 64 (74, 201), incrementing and non-incrementing register writes, CSel()/NSel() read-backs, Generator helpers SetGradient (2 and 3 stops), SetLinearGradient, SetCircularGradient, SetEllipticalGradient, SetPathData, a probe path with selector read-backs inside it, an arc path with unequal flags, a path with runs of 20 and 35 lines and 18 curves), run in lock step through Generator->Renderer and Generator->Encoder->Decode->Renderer (histories <=3 also through DestinationLogger), two argument sets (dyadic, non-dyadic). ", nl) +
+		Rule: fmt.Sprintf("engine S: every history of <=5 letters over a %d-letter alphabet (thorough: both argument sets at every depth, and every history of 6 letters over a 21-letter core alphabet) (SetCSel/SetNSel at {0,9,10,62,63} and at arguments >= 64 (74, 201), incrementing and non-incrementing register writes incl. an incrementing write of a blend and of a palette index, CSel()/NSel() read-backs, Generator helpers SetGradient (2 and 3 stops), SetLinearGradient, SetCircularGradient, SetEllipticalGradient, SetPathData, a probe path with selector read-backs inside it, an arc path with unequal flags and both close-and-move operations, a path with runs of 20 and 35 lines and 18 curves), run in lock step through Generator->Renderer and Generator->Encoder->Decode->Renderer (histories <=3 also through DestinationLogger), two argument sets (dyadic, non-dyadic). ", nl) +
 			"After every call the Encoder's and the Renderer's CSel()/NSel() must agree modulo 64 with each other and with the specification VM; helper return values must agree; at the end both recording rasterisers must hold the same calls and paints (bit-equal for the dyadic set, within the C01 tolerance otherwise). " +
 			"states = histories executed, transitions = letters executed; non-trivial = history containing a gradient helper or an incrementing write followed by a read-back",
 		Assumptions: []string{"non-dyadic argument set: rasteriser coordinates compared within 2^-17 relative to the raster size, gradient matrices within 2^-19 relative"},
@@ -192,6 +214,32 @@ func init() {
 			}
 			rc()
 			w.Depth(D)
+			if w.Thorough {
+				// histories of exactly 6 letters over the core alphabet (units whose two leading letters are core)
+				isCore := map[int]bool{}
+				for _, l := range c07Core {
+					isCore[l] = true
+				}
+				if isCore[seq[0]] && isCore[seq[1]] {
+					var rc6 func()
+					rc6 = func() {
+						if len(seq) == 6 {
+							if !w.Expired() {
+								st.check(&c07Case{Letters: seq, Set: 0})
+								st.check(&c07Case{Letters: seq, Set: 1})
+							}
+							return
+						}
+						for _, l := range c07Core {
+							seq = append(seq, l)
+							rc6()
+							seq = seq[:len(seq)-1]
+						}
+					}
+					rc6()
+					w.Depth(6)
+				}
+			}
 		},
 		Replay: func(w *mc.W, data json.RawMessage) error {
 			var cs c07Case
